@@ -13,7 +13,9 @@ RULE = ('random top-level sequences (1-28 ops) of add_processor / remove_process
         'included), 1-9 processor instances (several per class, so replacements are frequent), '
         'priorities from {-2..2} given as class attribute (own or inherited), instance attribute '
         'or explicit argument (0 and negatives included, ties likely), handler kinds '
-        'none / on_add / on_remove / both / unrelated event with renamed callbacks, dt dyadic; '
+        'none / on_add / on_remove / both / unrelated event with renamed callbacks, every callback '
+        '(on_add, on_remove, process) re-entrantly reads world.processors and get_processor of '
+        'every class (read-only), dt dyadic; '
         'after every op world.processors is read; distinct = different (case, trace); '
         'non-trivial = at least 3 add/remove ops and a process() that ran >= 2 processors')
 TRUSTED = [
@@ -105,13 +107,34 @@ def gen(rng, tier):
 
 
 # ------------------------------------------------------------ implementation
-def build(case, desper, log):
-    """The processor classes and instances of a case, as real Python objects."""
+def build(case, desper, log, ctx=None):
+    """The processor classes and instances of a case, as real Python objects.
+
+    Every callback first performs re-entrant read-only queries on the world
+    (processors, get_processor of every class of the case); the results are
+    discarded, an exception raised by one of them is logged as an entry the
+    model rejects."""
+    ctx = ctx if ctx is not None else {}
+
+    def look(self):
+        w = ctx.get('world')
+        if w is None:
+            return
+        try:
+            tuple(w.processors)
+            for cls in ctx.get('classes', ()):
+                w.get_processor(cls)
+        except Exception:
+            log.append(['bad', self.serial])
+
     def process(self, dt=1):
+        look(self)
         log.append(['run', self.serial, dt])
+        look(self)
 
     def cb(kind):
         def f(self, *args):
+            look(self)
             log.append([kind, self.serial] + (['args'] if args else []))
         return f
 
@@ -154,7 +177,9 @@ def exn_code(ex):
 def run(case):
     import desper
     log = []
-    classes, insts = build(case, desper, log)
+    ctx = {}
+    classes, insts = build(case, desper, log, ctx)
+    ctx['classes'] = classes
     ident = {id(p): k for k, p in enumerate(insts)}
     # input facts, as Python reports them (inheritance is the language's)
     facts = []
@@ -164,6 +189,7 @@ def run(case):
                       bool(evs) and 'on_remove' in evs])
     hier = [[j for j, cj in enumerate(classes) if issubclass(ci, cj)] for ci in classes]
     w = desper.World()
+    ctx['world'] = w
     out = []
     for o in case['ops']:
         del log[:]
